@@ -60,6 +60,21 @@ fn zone_ref<'a>(s: &'a Shared, k: usize) -> TimeZoneRef<'a> {
     }
 }
 
+static READER_CALLS: std::sync::atomic::AtomicU64 = std::sync::atomic::AtomicU64::new(0);
+static RELATIVE_PATHS: std::sync::atomic::AtomicU64 = std::sync::atomic::AtomicU64::new(0);
+static FIRST_RELATIVE: std::sync::Mutex<Option<String>> = std::sync::Mutex::new(None);
+
+fn path_monitoring_reader(path: &str) -> Result<Vec<u8>, Box<dyn std::error::Error + Send + Sync + 'static>> {
+    use std::sync::atomic::Ordering::Relaxed;
+    READER_CALLS.fetch_add(1, Relaxed);
+    if !path.starts_with('/') && RELATIVE_PATHS.fetch_add(1, Relaxed) == 0 {
+        if let Ok(mut g) = FIRST_RELATIVE.lock() {
+            *g = Some(path.to_string());
+        }
+    }
+    Err("no files in this workload".into())
+}
+
 /// execute one sequence; the digest covers every result
 pub fn execute(s: &Shared, ops: &[Op], yield_seed: Option<u64>) -> (u64, u64) {
     let mut h = Fnv::new();
@@ -89,7 +104,9 @@ pub fn execute(s: &Shared, ops: &[Op], yield_seed: Option<u64>) -> (u64, u64) {
                 Err(e) => h = h.i(facade::tz_err(&e) as i64 + 1000),
             },
             Op::ParseString(k) => {
-                let settings = TimeZoneSettings::new(&[], |_| Err("no files in this workload".into()));
+                // two absolute directories, a reader that has no file: every path handed to it must be absolute,
+                // a relative one would be resolved against the process-wide working directory
+                let settings = TimeZoneSettings::new(&["/tzmon-d1", "/tzmon-d2"], path_monitoring_reader);
                 match settings.parse_posix_tz(&s.strings[*k % s.strings.len()]) {
                     Ok(z) => {
                         h = h.i(z.as_ref().local_time_types().len() as i64);
@@ -214,7 +231,7 @@ pub fn run(ctx: &Ctx) -> Report {
     rep.rule = "cases = (operation sequence, thread count, schedule seed): sequences mixing parse (file and TZ string), construct, lookup, from_timespec, find, find_n, format on shared zones (Arc<TimeZone> of vendored files and generated zones, a leaked &'static zone, the const UTC zone) and private values; each sequence's digest when run by one of N threads (N in 2, 4, 8, 16; start barrier; random yields / spins between calls) must equal its digest when run alone. \
                 distinct_nontrivial = distinct (sequence, thread count, round) executions whose sequence touches a shared zone."
         .into();
-    rep.required_classes = vec!["threads_2", "threads_4", "threads_8", "threads_16", "shared_zone_ops", "private_value_ops", "parse_ops"];
+    rep.required_classes = vec!["threads_2", "threads_4", "threads_8", "threads_16", "shared_zone_ops", "private_value_ops", "parse_ops", "reader_saw_absolute_paths_only"];
     let (_paths, blobs) = match load_corpus(&ctx.corpus) {
         Ok(x) => x,
         Err(e) => {
@@ -287,6 +304,22 @@ pub fn run(ctx: &Ctx) -> Report {
                     );
                 }
                 l.distinct_hash(Fnv::new().i(refs[i].0 as i64).i(nthreads as i64).i(round as i64).get());
+            }
+            {
+                use std::sync::atomic::Ordering::Relaxed;
+                let rel = RELATIVE_PATHS.swap(0, Relaxed);
+                l.op_n("paths handed to the injected reader", READER_CALLS.swap(0, Relaxed));
+                if rel > 0 {
+                    let first = FIRST_RELATIVE.lock().ok().and_then(|mut g| g.take()).unwrap_or_default();
+                    l.violation(
+                        "ambient state: a relative path is handed to the file reader (its meaning depends on the process-wide working directory)",
+                        format!("TZ values resolved with directories [\"/tzmon-d1\", \"/tzmon-d2\"], round {} threads {}", round, nthreads),
+                        "absolute paths only".into(),
+                        format!("{} relative paths, first: {:?}", rel, first),
+                    );
+                } else {
+                    l.class("reader_saw_absolute_paths_only");
+                }
             }
             l.class(match nthreads {
                 2 => "threads_2",
